@@ -2,36 +2,34 @@
 // Solver counter-example(s) produced by Kani's concrete playback; replay with
 //   ./check C10 --replay /verif/replay/cases/c10__q__u8___copy.rs
 
-// failed check (assertion): assertion failed: d.get(q) == ref_get_u8 (& src, w, from + q - to)
+// failed check (assertion): attempt to shift left with overflow
 #[test]
-fn kani_concrete_playback_copy_13454302367160671494() {
+fn kani_concrete_playback_copy_4731192945706273058() {
     let concrete_vals: Vec<Vec<u8>> = vec![
-        // 136
-        vec![136],
-        // 136
-        vec![136],
-        // 35
-        vec![35],
-        // 136
-        vec![136],
-        // 63
-        vec![63],
-        // 63
-        vec![63],
-        // 125
-        vec![125],
-        // 61
-        vec![61],
-        // 1ul
-        vec![1, 0, 0, 0, 0, 0, 0, 0],
-        // 17ul
-        vec![17, 0, 0, 0, 0, 0, 0, 0],
-        // 5ul
-        vec![5, 0, 0, 0, 0, 0, 0, 0],
-        // 32ul
-        vec![32, 0, 0, 0, 0, 0, 0, 0],
-        // 15ul
-        vec![15, 0, 0, 0, 0, 0, 0, 0],
+        // 176
+        vec![176],
+        // 176
+        vec![176],
+        // 176
+        vec![176],
+        // 241
+        vec![241],
+        // 250
+        vec![250],
+        // 240
+        vec![240],
+        // 208
+        vec![208],
+        // 208
+        vec![208],
+        // 8ul
+        vec![8, 0, 0, 0, 0, 0, 0, 0],
+        // 0ul
+        vec![0, 0, 0, 0, 0, 0, 0, 0],
+        // 3ul
+        vec![3, 0, 0, 0, 0, 0, 0, 0],
+        // 2ul
+        vec![2, 0, 0, 0, 0, 0, 0, 0],
     ];
     kani::concrete_playback_run(concrete_vals, crate::c10::q::u8_::copy);
 }
